@@ -97,6 +97,18 @@ check("C18", "translation_validation",
       "CPU only; inductor / CUDA not exercised. Behaviours are sampled (seeded TLC simulation); edge classes covered are listed in the evidence.",
       "TLC-generated behaviours + eager-vs-compiled bitwise comparison + TLC trace validation of the compiled run", "DESIGN.md §5 C18")
 
+check("C06", "model_checking",
+      "spec/ShampooDist models W ranks in groups of GS with one gather per group and step whose completion requires every member blocked "
+      "in an identically-signed call; TLC checks deadlock freedom, liveness (NoRankLeftWaiting), SerialEquivalence, ReplicaAgreement, "
+      "OwnerUnique and CreationAgreement over every mask history and interleaving for W<=4. The real DDPDistributor + optimizer run on "
+      "simulated ranks (thread-per-rank process group with arrival gates and exact deadlock detection); every rank after every step is "
+      "bitwise equal to the serial optimizer whose communicated quantity is rounded through the communication dtype; per-rank logs of "
+      "group creations and gathers are validated by TLC (DistTrace), which also names the deviation that explains a rejected log.",
+      "The threaded process group stands in for the transport (a 2-4 process gloo smoke run was used to validate the repair of D5b). "
+      "Exhaustive for W<=4 on the model; W<=8 sampled on the real code.",
+      "TLA+ spec model-checked by TLC (safety + liveness) + simulated-rank replay vs rounded-serial oracle + TLC validation of collective logs",
+      "DESIGN.md §5 C06")
+
 ALL = [f"C{i:02d}" for i in range(1, 19)]
 
 
